@@ -119,9 +119,16 @@ def double_preemptions(scn, first_filter, window=60, run=None, second="preempted
             seen = 0
             # second switch: at yield points of the thread that was pre-empted first
             # ("preempted", after it resumes) or of the thread switched to ("target")
+            # ... or of any thread but the pre-empted one ("other": e.g. the client runs first, and the
+            # I/O thread it wakes is the one interrupted), switching back to the pre-empted thread
             who = cur if second == "preempted" else tid
             for e2 in p2:
-                if e2[0] <= step or e2[3] != who:
+                if e2[0] <= step:
+                    continue
+                if second == "other":
+                    if e2[3] == cur:
+                        continue
+                elif e2[3] != who:
                     continue
                 if second_filter is not None and not second_filter(e2[2]):
                     continue
@@ -129,6 +136,6 @@ def double_preemptions(scn, first_filter, window=60, run=None, second="preempted
                 if seen > window:
                     break
                 for tid2 in e2[1]:
-                    if second == "target" and tid2 != cur:
+                    if second in ("target", "other") and tid2 != cur:
                         continue
                     yield {str(step): tid, str(e2[0]): tid2}
